@@ -272,40 +272,16 @@ example : Contract (LaxPolygon.accFixed (LaxPolygonS.ofLens [3, 0, 1, 2])) 6 4 :
 def PolyValid (loops : List LoopS) : Prop :=
   (∃ l, loops = [l] ∧ l.n = 1) ∨ (∀ l ∈ loops, l.n ≠ 1)
 
-/-- full statement (NOT proved in this package for the general case — see `polygon_contract_partial`
-    and the correspondence check `c06a`, which exercises both search paths on every run). -/
+/-- full statement; PROVED for every valid loop list (any number of loops, both search paths) as
+    `polygon_contract` in S2Proofs/Properties/C06_Polygon.lean (helper lemmas S2Proofs/C06/Polygon.lean;
+    the correspondence check `c06a` additionally exercises both search paths on every run). -/
 def Polygon_contract : Prop :=
   ∀ loops : List LoopS, PolyValid loops →
     Contract (Polygon.acc (PolygonS.fromLoops loops)) (Polygon.NumEdges (PolygonS.fromLoops loops))
       (Polygon.NumChains (PolygonS.fromLoops loops))
 
-/-- proved part: the empty polygon (a single empty loop: no chains) and the full polygon (a single
-    full loop: one chain of length 0).  Missing: the general multi-loop case (lemmas needed:
-    `linSearch`/`cumSearch` return `(i, j)` on `start i + j`; `sumLens` = `start`). -/
-theorem polygon_contract_partial (l : LoopS) (h : l.n = 1) :
-    Contract (Polygon.acc (PolygonS.fromLoops [l])) (Polygon.NumEdges (PolygonS.fromLoops [l]))
-      (Polygon.NumChains (PolygonS.fromLoops [l])) := by
-  obtain ⟨n, o, d⟩ := l
-  simp at h; subst h
-  cases o
-  · -- empty loop: polygon without loops
-    have := contract_prefix (Polygon.acc (PolygonS.fromLoops [⟨1, false, d⟩])) [] rfl rfl
-      (by intro i hi; simp at hi) (by intro i hi; simp at hi) (by intro i hi; simp at hi)
-    exact this
-  · -- full polygon
-    have := contract_prefix (Polygon.acc (PolygonS.fromLoops [⟨1, true, d⟩])) [0] rfl rfl
-      (by
-        intro i hi
-        have : i = 0 := by simpa using hi
-        subst this; rfl)
-      (by intro i hi j hj; have : i = 0 := by simpa using hi
-          subst this; simp at hj)
-      (by intro i hi j hj; have : i = 0 := by simpa using hi
-          subst this; simp at hj)
-    exact this
-
 example : PolyValid [⟨1, true, 0⟩] := Or.inl ⟨_, rfl, rfl⟩
-/-- bounded evidence for the general case (executable check of all clauses on instances; both paths) -/
+/-- instances (executable check of all clauses; both paths) -/
 example : checkContract (Polygon.acc (PolygonS.fromLoops [⟨3,false,0⟩, ⟨4,false,1⟩, ⟨2,false,0⟩])) 9 3 = none := by decide
 example : checkContract (Polygon.acc (PolygonS.fromLoops ((List.range 14).map fun k => ⟨k + 2, false, k⟩))) 119 14 = none := by decide
 /-- the observation above: an invalid two-loop polygon containing an empty loop -/
